@@ -406,10 +406,11 @@ TIES = {
                             'set_reporter2_tie', 'setreporter_sem'],
                   cxx='sequence_handler_base::set_limits, runtime_times::action (RT_TIMES), sequence_type::add_last / add_retired, '
                       'set_tracer, set_reporter (both overloads) (mock.hpp, sequence.hpp)'),
-    'Monitors': dict(props=['C13'], gen=['ChainLifetimeMonitor', 'ExpectDeath', 'NullOnMoveAssignPtr', 'NullOnMoveAssignCopy', 'NullOnMoveAssignMove'],
+    'Monitors': dict(props=['C13'], gen=['ChainLifetimeMonitor', 'ExpectDeath', 'NullOnMoveAssignPtr', 'NullOnMoveAssignCopy', 'NullOnMoveAssignMove',
+                                        'NullOnMoveCopyCtor', 'NullOnMoveMoveCtor'],
                      theorems=['expect_death_eq', 'expect_death_tie', 'null_on_move_assign_ptr_tie', 'null_on_move_assign_copy_tie',
-                               'null_on_move_assign_move_tie'],
-                     cxx='chain_lifetime_monitor, deathwatched<T>::trompeloeil_expect_death (lifetime.hpp), null_on_move<T>::operator= (mock.hpp)'),
+                               'null_on_move_assign_move_tie', 'null_on_move_copy_ctor_tie', 'null_on_move_move_ctor_tie'],
+                     cxx='chain_lifetime_monitor, deathwatched<T>::trompeloeil_expect_death (lifetime.hpp), null_on_move<T>::operator= and its copy / move constructors (mock.hpp)'),
     'Coro': dict(props=['C20'], gen=['HandleCoYield', 'HandleCoReturn', 'HandleCoThrow', 'CoBody'],
                  theorems=['co_body_tie', 'handle_co_yield_eq', 'handle_co_return_eq', 'handle_co_throw_eq', 'handle_invalid', 'fold_shared',
                            'registered_tie', 'registered_eq_ofClauses'],
